@@ -14,6 +14,7 @@ Hypothesis `allInfo infoOK`: every node body is what its class writes (bundle of
 import EmdProofs.ValidProofs
 import EmdProps.C10
 import EmdProps.C20
+import EmdProps.C02
 
 set_option linter.unusedSimpArgs false
 
@@ -455,6 +456,167 @@ theorem C05_target_new_branch (sess : Session) (over : Bool) (f : Obj) (F Rt P D
     obtain ⟨hw1, _⟩ := rootMd_encode over F Rt.info body' hF.1.1 hmdname hmd
     exact ⟨⟨hw1, by cases F; exact hF.1.2⟩, by cases F; exact hF.2⟩
   exact C05_replace_root sess f F.name _ hv (rootedWF_replaceAt (withBody F body') (P.addKid D) n0 q0 hF1r hwf) hall
+
+/-! ### per-class body validity: what `Array.to_h5` writes is a valid Array body -/
+
+theorem dim_prefix (n : Nat) : ((autoName "dim" n).toList.take 3 == ['d', 'i', 'm']) = true := by
+  simp [autoName, String.toList_append]
+
+theorem dimName_eq (n : Nat) : dimName n = autoName "dim" n := rfl
+
+/-- C05, Arrays: for every Array value with one dim vector, unit and name per axis (`LenInv`: every constructed Array),
+    the body `to_h5` writes holds `data` with `units` and exactly the datasets `dim0 … dim(k-1)`, each with a `name` and
+    (unless it is the label vector of a stack) `units` -/
+theorem C05_array_body_ok (ops : NumOps) (a : ArrayVal) : arrayBodyOK (a.toBody ops) = true := by
+  have hdata := C02_data_units ops a
+  have hfilter : ((a.toBody ops).filter (fun kv => kv.1.toList.take 3 == ['d', 'i', 'm'])).length
+      = a.rank + (if a.isStack then 1 else 0) := by
+    rw [toBody_eq]
+    simp only [List.filter_append, List.length_append]
+    have h1 : ([("data", Obj.dataset [("units", AVal.str a.units)] (DVal.tok a.dataTok))].filter
+        (fun kv => kv.1.toList.take 3 == ['d', 'i', 'm'])).length = 0 := by
+      have : (("data" : String).toList.take 3 == ['d', 'i', 'm']) = false := by decide
+      simp [List.filter_cons, this]
+    have h2 : (((List.range a.rank).map (fun n => (autoName "dim" n, storedDim ops a n))).filter
+        (fun kv => kv.1.toList.take 3 == ['d', 'i', 'm'])).length = a.rank := by
+      rw [List.filter_eq_self.mpr]
+      · simp
+      · intro x hx
+        obtain ⟨n, _, rfl⟩ := List.mem_map.mp hx
+        exact dim_prefix n
+    rw [h1, h2]
+    cases a.isStack
+    · simp
+    · simp [dim_prefix]
+  simp only [arrayBodyOK, hdata, alookup, if_true, Option.isSome_some, Bool.true_and, hfilter, List.all_eq_true, List.mem_range]
+  intro n hn
+  rw [dimName_eq]
+  by_cases hr : n < a.rank
+  · rw [alookup_dim ops a n hr]
+    simp [storedDim, alookup]
+  · have hstack : a.isStack = true := by
+      cases hs : a.isStack with
+      | true => rfl
+      | false => simp [hs] at hn; omega
+    have hn' : n = a.rank := by simp [hstack] at hn; omega
+    subst hn'
+    rw [alookup_labels ops a]
+    simp [hstack, alookup]
+
+/-! ### …and what `Metadata.to_h5` writes is a valid Metadata entry -/
+
+mutual
+theorem mdItemOK_saveItem : ∀ (v : PyVal) (o : Obj), saveItem v = .ok o → mdItemOK o = true
+  | .dict items, o, h => by
+    simp only [saveItem, bind, Except.bind] at h
+    cases hs : saveItems items with
+    | error e => simp [hs] at h
+    | ok kids =>
+      simp only [hs, pure, Except.pure, Except.ok.injEq] at h
+      subst h
+      simp only [mdItemOK, typeAttr, alookup, if_true]
+      exact mdItemsOK_saveItems items kids hs
+  | .none, o, h => by simp only [saveItem, pure, Except.pure, Except.ok.injEq] at h; subst h; simp [mdItemOK, typeAttr, alookup]
+  | .str s, o, h => by simp only [saveItem, pure, Except.pure, Except.ok.injEq] at h; subst h; simp [mdItemOK, typeAttr, alookup]
+  | .bool b, o, h => by simp only [saveItem, pure, Except.pure, Except.ok.injEq] at h; subst h; simp [mdItemOK, typeAttr, alookup]
+  | .num k r, o, h => by simp only [saveItem, pure, Except.pure, Except.ok.injEq] at h; subst h; simp [mdItemOK, typeAttr, alookup]
+  | .npnum d k r, o, h => by simp only [saveItem, pure, Except.pure, Except.ok.injEq] at h; subst h; simp [mdItemOK, typeAttr, alookup]
+  | .arr t, o, h => by simp only [saveItem, pure, Except.pure, Except.ok.injEq] at h; subst h; simp [mdItemOK, typeAttr, alookup]
+  | .seqNp isT t, o, h => by simp only [saveItem, pure, Except.pure, Except.ok.injEq] at h; subst h; simp [mdItemOK, typeAttr, alookup]
+  | .npbool b, o, h => by simp [saveItem, throw, throwThe, MonadExceptOf.throw] at h
+  | .bytes s, o, h => by simp [saveItem, throw, throwThe, MonadExceptOf.throw] at h
+  | .other k, o, h => by simp [saveItem, throw, throwThe, MonadExceptOf.throw] at h
+  | .tuple xs st, o, h => by
+    simp only [saveItem] at h
+    repeat' split at h
+    all_goals first
+      | (simp only [pure, Except.pure, Except.ok.injEq] at h; subst h; simp [mdItemOK, typeAttr, contAttrs, alookup])
+      | (simp [throw, throwThe, MonadExceptOf.throw] at h)
+  | .list xs st, o, h => by
+    simp only [saveItem] at h
+    repeat' split at h
+    all_goals first
+      | (simp only [pure, Except.pure, Except.ok.injEq] at h; subst h; simp [mdItemOK, typeAttr, contAttrs, alookup])
+      | (simp [throw, throwThe, MonadExceptOf.throw] at h)
+theorem mdItemsOK_saveItems : ∀ (items : List (String × PyVal)) (kids : List (String × Obj)), saveItems items = .ok kids →
+    mdItemsOK kids = true
+  | [], kids, h => by simp only [saveItems, pure, Except.pure, Except.ok.injEq] at h; subst h; rfl
+  | (k, v) :: rest, kids, h => by
+    simp only [saveItems, bind, Except.bind] at h
+    split at h
+    · simp [throw, throwThe, MonadExceptOf.throw] at h
+    · cases hv : saveItem v with
+      | error e => simp [hv] at h
+      | ok o =>
+        simp only [hv] at h
+        cases hr : saveItems rest with
+        | error e => simp [hr] at h
+        | ok os =>
+          simp only [hr] at h
+          split at h
+          · simp [throw, throwThe, MonadExceptOf.throw] at h
+          · simp only [pure, Except.pure, Except.ok.injEq] at h
+            subst h
+            simp only [mdItemsOK, Bool.and_eq_true]
+            exact ⟨mdItemOK_saveItem v o hv, mdItemsOK_saveItems rest os hr⟩
+end
+
+/-- C05, Metadata: whatever `Metadata.to_h5` writes — for EVERY dictionary it accepts, at any nesting depth — is a group
+    tagged `metadata` with its class, all of whose items are typed (and container groups carry their length) -/
+theorem C05_metadata_entry_ok (cls : String) (items : List (String × PyVal)) (o : Obj) (h : mdToObj cls items = .ok o) :
+    mdEntryOK o = true := by
+  simp only [mdToObj, bind, Except.bind] at h
+  cases hs : saveItems items with
+  | error e => simp [hs] at h
+  | ok kids =>
+    simp only [hs, pure, Except.pure, Except.ok.injEq] at h
+    subst h
+    simp only [mdEntryOK, Obj.gtype, Obj.pyClass, Obj.attrs, alookup, if_true, Bool.and_eq_true]
+    exact ⟨⟨by simp, by simp⟩, mdItemsOK_saveItems items kids hs⟩
+
+/-- C05, an Array NODE: the body `Node.to_h5` + `Array.to_h5` write — the metadata bundle (when the node carries Metadata)
+    followed by the Array datasets — is a valid body for group type `array`, for every Array value and every list of
+    Metadata entries written by `Metadata.to_h5` -/
+theorem C05_array_node_ok (ops : NumOps) (a : ArrayVal) (entries : List (String × Obj))
+    (he : entries.all (fun kv => mdEntryOK kv.2) = true) :
+    bodyOK "array" (bundleOf entries ++ a.toBody ops) = true := by
+  have harr := C05_array_body_ok ops a
+  by_cases hemp : entries.isEmpty = true
+  · simp only [bundleOf, hemp, if_true, List.nil_append, bodyOK, beq_self_eq_true, harr, Bool.and_true]
+    have : alookup "metadatabundle" (a.toBody ops) = none := by
+      rw [toBody_eq]
+      apply alookup_none_of_not_mem
+      simp only [akeys, List.map_append, List.map_cons, List.map_nil, List.map_map, List.mem_append, List.mem_cons,
+        List.mem_map, List.mem_range, Function.comp, not_or]
+      refine ⟨by decide, ?_, ?_⟩
+      · rintro ⟨n, _, e⟩
+        have := congrArg (fun (s : String) => s.toList.take 3 == ['d', 'i', 'm']) e
+        simp only [dim_prefix] at this
+        exact absurd this (by decide)
+      · cases a.isStack
+        · simp
+        · simp only [if_true, List.map_cons, List.map_nil, List.mem_singleton, List.mem_cons, List.not_mem_nil, or_false]
+          rintro ⟨x, rfl, e⟩
+          have := congrArg (fun (s : String) => s.toList.take 3 == ['d', 'i', 'm']) e
+          simp only [dim_prefix] at this
+          exact absurd this (by decide)
+    simp [this]
+  · have hne : entries.isEmpty = false := by simpa using hemp
+    simp only [bundleOf, hne, Bool.false_eq_true, if_false, List.cons_append, List.nil_append, bodyOK, alookup, if_true,
+      beq_self_eq_true, Bool.and_eq_true]
+    refine ⟨?_, ?_⟩
+    · simp [bundleOK, Obj.gtype, Obj.attrs, bundleAttrs, alookup, he]
+    · -- the bundle is neither `data` nor a `dim*` dataset
+      have hb : (("metadatabundle" : String).toList.take 3 == ['d', 'i', 'm']) = false := by decide
+      have hd : ¬ ("metadatabundle" = "data") := by decide
+      simp only [arrayBodyOK, alookup, hd, if_false, List.filter_cons, hb, Bool.false_eq_true] at harr ⊢
+      have hdim : ∀ n, ¬ ("metadatabundle" = dimName n) := by
+        intro n e
+        have := congrArg (fun (s : String) => s.toList.take 3 == ['d', 'i', 'm']) e
+        simp only [hb, dimName_eq, dim_prefix] at this
+        cases this
+      simp only [hdim, if_false]
+      exact harr
 
 -- non-vacuity: the C09 example trees have valid bodies, and the files the model writes for them validate
 example : exF.allInfo infoOK = true ∧ exR.allInfo infoOK = true := by decide
